@@ -318,7 +318,11 @@ func (c *c06Case) judge(rec *vlib.Rec, idx int, o *c06Obs) c06Reaction {
 		}
 	}
 	if !o.reset && len(o.unnamed) > 0 {
-		rec.Violation(fmt.Sprintf("c06:%s:%s:taw%d:unnamed-prefix-touched", fam, c.sess.pt, taw),
+		key := fmt.Sprintf("c06:%s:%s:taw%d:unnamed-prefix-touched", fam, c.sess.pt, taw)
+		if len(c.faults) > 1 {
+			key = fmt.Sprintf("c06:pair:unnamed-prefix-touched:%s:taw%d", c.sess.pt, taw)
+		}
+		rec.Violation(key,
 			fmt.Sprintf("layer %d, %s session, faults %s: prefixes the message does not name changed: %v", c.layer, c.sess, c.faultIDs(), o.unnamed), c.witness(idx, o))
 	}
 	return got
@@ -379,7 +383,7 @@ func c06Mono(rec *vlib.Rec, idx int, pair *c06Case, po *c06Obs, gotPair c06React
 	}
 	if i := worst; i >= 0 {
 		other := singles[1-i]
-		rec.Violation(fmt.Sprintf("c06:pair:%s:taw%d:weaker-than-%s", pair.faults[i].family(), taw, singles[i]),
+		rec.Violation(fmt.Sprintf("c06:pair:weaker-than-single:taw%d:%s", taw, pair.faults[i].family()),
 			fmt.Sprintf("monotonicity, layer %d, %s session, base %s: fault %s alone -> %s, fault %s alone -> %s, both -> %s", pair.layer, pair.sess, c06Bases[pair.base].name,
 				pair.faults[i].id, singles[i], pair.faults[1-i].id, other, gotPair), pair.witness(idx, po))
 		return
@@ -389,7 +393,7 @@ func c06Mono(rec *vlib.Rec, idx int, pair *c06Case, po *c06Obs, gotPair c06React
 	if !gotPair.has(c06Reset) && !gotPair.has(c06TAW) && !gotPair.has(c06Stale) {
 		for i := 0; i < 2; i++ {
 			if singleOK[i] && singles[i].classes == c06R(c06Discard) && po.kept[i] {
-				rec.Violation(fmt.Sprintf("c06:pair:%s:taw%d:kept-though-discarded-alone", pair.faults[i].family(), taw),
+				rec.Violation(fmt.Sprintf("c06:pair:kept-though-discarded-alone:taw%d:%s", taw, pair.faults[i].family()),
 					fmt.Sprintf("layer %d, %s session, base %s: fault %s alone -> its attribute is discarded; together with %s (alone -> %s) the message gets %s and the installed routes carry the attribute",
 						pair.layer, pair.sess, c06Bases[pair.base].name, pair.faults[i].id, pair.faults[1-i].id, singles[1-i], gotPair), pair.witness(idx, po))
 				return
@@ -400,7 +404,7 @@ func c06Mono(rec *vlib.Rec, idx int, pair *c06Case, po *c06Obs, gotPair c06React
 	if singleOK[0] && singleOK[1] {
 		allowed := c06Classify(pair.sess, pair.faults...)
 		if !allowed.admits(gotPair) {
-			rec.Violation(fmt.Sprintf("c06:pair:%s+%s:taw%d:%s-not-in-%s", pair.faults[0].family(), pair.faults[1].family(), taw, gotPair, allowed),
+			rec.Violation(fmt.Sprintf("c06:pair:outside-table:taw%d:%s+%s:%s-not-in-%s", taw, pair.faults[0].family(), pair.faults[1].family(), gotPair, allowed),
 				fmt.Sprintf("layer %d, %s session, base %s, faults %s: observed %s, strongest-of-both allows %s", pair.layer, pair.sess, c06Bases[pair.base].name, pair.faultIDs(), gotPair, allowed), pair.witness(idx, po))
 		}
 	}
